@@ -9,6 +9,7 @@ import (
 	"context"
 	"encoding/hex"
 	"fmt"
+	"github.com/bits-and-blooms/bloom/v3"
 	"io"
 	"os"
 	"path/filepath"
@@ -398,12 +399,29 @@ func runC16(c *ctx) {
 		h := NewHistory(r)
 		h.Run(r, 8, c.r)
 		var payloads [][]byte
-		for _, d := range h.Env.Data.Published() {
-			if !strings.HasPrefix(string(d), "ext") {
+		for name, d := range h.Env.Data.Published() {
+			if !strings.HasPrefix(name, "ext") {
 				payloads = append(payloads, d)
 			}
 		}
 		h.Env.Stop()
+		// the smallest valid files the public writer helper produces: a footer only (no data block, the file
+		// filter section starts at offset 0), with and without file-level filters
+		for _, withFilters := range []bool{false, true} {
+			var buf bytes.Buffer
+			md := bs.FileMetadata{BloomFalsePositiveRate: 0.01}
+			if withFilters {
+				md.BloomFilters = bs.BloomFilters{FieldBloomFilter: bloom.NewWithEstimates(4, 0.01), TokenBloomFilter: bloom.NewWithEstimates(4, 0.01), FieldTokenBloomFilter: bloom.NewWithEstimates(4, 0.01)}
+			}
+			if err := bs.WriteFileFooter(&buf, &md); err == nil {
+				if _, _, rerr := bs.ReadFileMetadata(bytes.NewReader(buf.Bytes())); rerr == nil {
+					payloads = append(payloads, buf.Bytes(), buf.Bytes())
+					c.r.Hit("fs.footer-only-payload")
+				} else {
+					c.r.Add(Finding{Kind: "violation", Check: "scan-exact", Detail: fmt.Sprintf("a footer-only file written by WriteFileFooter (no data blocks, file-level filters=%v) is rejected by ReadFileMetadata: %v - published through the store it would never be listed", withFilters, rerr), Replay: map[string]any{"file_hex": fmt.Sprintf("%x", buf.Bytes())}})
+				}
+			}
+		}
 		for i := 0; i < 40*c.scale && len(payloads) > 0; i++ {
 			fr := newFsRun()
 			want := map[string]bool{}
